@@ -4,6 +4,7 @@ from __future__ import annotations
 
 import concurrent.futures as cf
 import faulthandler
+import tempfile
 import hashlib
 import json
 import multiprocessing as mp
@@ -62,13 +63,46 @@ def load_known() -> list[dict]:
 _worker_fn = None
 
 
+_MARK_DIR = "/dev/shm" if os.path.isdir("/dev/shm") else tempfile.gettempdir()
+
+
+def _mark_path(pid: int) -> str:
+    return os.path.join(_MARK_DIR, f"geosim-running-{os.getppid() if pid == 0 else pid}")
+
+
 def _worker_entry(args):
     fn, seed, want_sample, timeout = args
+    # which seed this process is working on, readable by the parent if the process dies (hang killed by the watchdog,
+    # crash inside a C extension): a harness error must at least name its seed
+    mark = os.path.join(_MARK_DIR, f"geosim-running-{os.getppid()}-{os.getpid()}")
+    try:
+        with open(mark, "w") as f:
+            f.write(repr(seed))
+    except OSError:
+        mark = None
     faulthandler.dump_traceback_later(timeout, exit=True)
     try:
         return fn(seed, want_sample)
     finally:
         faulthandler.cancel_dump_traceback_later()
+        if mark:
+            try:
+                os.unlink(mark)
+            except OSError:
+                pass
+
+
+def _dead_worker_seeds() -> list[str]:
+    import glob
+
+    out = []
+    for pth in glob.glob(os.path.join(_MARK_DIR, f"geosim-running-{os.getpid()}-*")):
+        try:
+            out.append(open(pth).read())
+            os.unlink(pth)
+        except OSError:
+            pass
+    return out
 
 
 def run_batch(run_seed, base_seed: int, n_runs: int | None, budget_s: float, workers: int, per_run_timeout: int = 300,
@@ -125,6 +159,9 @@ def run_batch(run_seed, base_seed: int, n_runs: int | None, budget_s: float, wor
                 except Exception as e:  # noqa: BLE001  (BrokenProcessPool, worker killed by faulthandler, ...)
                     agg["harness_errors"].append(f"worker failure: {type(e).__name__}: {e}")
                     stop = True
+                    dead = _dead_worker_seeds()
+                    if dead:
+                        agg["harness_errors"].append("seeds in progress when a worker died: " + ", ".join(dead[:8]))
                     continue
                 agg["runs"] += 1
                 agg["wall_runs"] += r.get("wall", 0.0)
